@@ -235,6 +235,12 @@ func (it *indexedMessageIterator) loadChunk(chunkIndex *ChunkIndex) error {
 	}
 
 	compressedChunkLength := chunkIndex.ChunkLength
+	// the chunk index comes from the file: the record it designates must at least hold
+	// a record prefix and cannot extend past the end of the file.
+	if compressedChunkLength < 9 || compressedChunkLength > uint64(it.fileSize)-chunkIndex.ChunkStartOffset {
+		return fmt.Errorf("%w: chunk at %d with length %d in a file of %d bytes",
+			ErrBadOffset, chunkIndex.ChunkStartOffset, compressedChunkLength, it.fileSize)
+	}
 	if uint64(cap(it.recordBuf)) < compressedChunkLength {
 		newCapacity := int(float64(compressedChunkLength) * chunkBufferGrowthMultiple)
 		it.recordBuf = make([]byte, compressedChunkLength, newCapacity)
@@ -264,7 +270,10 @@ func (it *indexedMessageIterator) loadChunk(chunkIndex *ChunkIndex) error {
 	chunkSlot := &it.chunkSlots[chunkSlotIndex]
 	bufSize := parsedChunk.UncompressedSize
 	if uint64(cap(chunkSlot.buf)) < bufSize {
-		chunkSlot.buf = make([]byte, bufSize)
+		chunkSlot.buf, err = makeSafe(bufSize)
+		if err != nil {
+			return fmt.Errorf("failed to allocate %d bytes for chunk data: %w", bufSize, err)
+		}
 	} else {
 		chunkSlot.buf = chunkSlot.buf[:bufSize]
 	}
@@ -397,7 +406,10 @@ func readRecord(r io.Reader, buf []byte) (OpCode, []byte, error) {
 	opcode := OpCode(buf[0])
 	recordLen := binary.LittleEndian.Uint64(buf[1:])
 	if uint64(cap(buf)) < recordLen {
-		buf = make([]byte, recordLen)
+		buf, err = makeSafe(recordLen)
+		if err != nil {
+			return 0, nil, fmt.Errorf("failed to allocate %d bytes for record: %w", recordLen, err)
+		}
 	} else {
 		buf = buf[:recordLen]
 	}
